@@ -231,8 +231,8 @@ Lemma case_meaning_scales :
     let c := Z.of_nat (length L) in
     ((c <= 1000000)%Z -> lv_count lv = c) /\
     ((1000000 < c)%Z -> (Z.abs (lv_count lv - Z.min c MAXINT) <= 2 + c / 1000000000)%Z) /\
-    ((lv_st lv = 0%Z /\ (c <= 1000000)%Z /\ obs_close tolv L (lv_ticks lv) /\ lv_count lv = Z.of_nat (length (lv_ticks lv)))
-    \/ (lv_st lv = 3%Z /\ (10000 < c)%Z /\ lv_ticks lv = [])))%Q) /\
+    ((lv_st lv = 0%Z /\ obs_close tolv L (lv_ticks lv) /\ Z.of_nat (length (lv_ticks lv)) = c)
+    \/ (lv_st lv = 3%Z /\ (1000 < c)%Z /\ lv_ticks lv = [])))%Q) /\
   (forall (tolv : Q -> Q) (base eb : Z) (o : tickopts) (mn mx : Q) (st : Z) (a b : xreal), lin_nice_spec tolv base eb o mn mx st a b <->
    (st = 0%Z /\ exists ao bo x y, a = XFin ao /\ b = XFin bo /\ Qabs (ao - x) <= tolv x /\ Qabs (bo - y) <= tolv y /\
     let smn := fst (lin_start mn mx) in let smx := snd (lin_start mn mx) in
@@ -364,9 +364,9 @@ Proof. repeat match goal with |- _ /\ _ => split end; intros; first [reflexivity
 (* the borderline rule (verdict code 1): Linear: outside the near_round window of every floor/ceil decision
    the admissible comparison implies the exact one *)
 Lemma borderline_window :
-  (forall base eb mn mx tolv lv, lin_amb_level base eb mn mx false (lv_level lv) = false ->
+  (forall base eb mn mx tolv lv, lin_amb_level base eb mn mx false (lv_level lv) = false -> (lv_count lv <= MAXINT)%Z ->
      lin_level_adm base eb mn mx tolv lv = true -> lin_level_exact base eb mn mx tolv lv = true) /\
-  (forall base eb mn mx tolv levels,
+  (forall base eb mn mx tolv levels, (forall lv, In lv levels -> (lv_count lv <= MAXINT)%Z) ->
      forallb (lin_level_exact base eb mn mx tolv) levels = false ->
      forallb (fun lv => lin_level_exact base eb mn mx tolv lv || lin_level_adm base eb mn mx tolv lv) levels = true ->
      exists lv, In lv levels /\ lin_level_exact base eb mn mx tolv lv = false /\ lin_level_adm base eb mn mx tolv lv = true /\
@@ -400,6 +400,7 @@ Lemma borderline_window :
      let base := sc_base c in let mn := sc_mn c in let mx := sc_mx c in
      ~ ((forall l, lin_amb_level base eb (fst (lin_order mn mx)) (snd (lin_order mn mx)) false l = false) /\
         (forall l, lin_amb_level base eb mn mx false l = false) /\
+        (forall lv, In lv (so_levels (sc_ob c)) -> (lv_count lv <= MAXINT)%Z) /\
         (forall l, lin_amb_level base eb (fst (lin_start mn mx)) (snd (lin_start mn mx)) true l = false) /\
         (forall l, lin_amb_level base eb (fst (lin_order ao bo)) (snd (lin_order ao bo)) false l = false) /\
         (forall l, lin_amb_level base eb (fst (lin_start ao bo)) (snd (lin_start ao bo)) true l = false))) /\
